@@ -3,6 +3,11 @@
 Proof: coq/props/C10.v (records of the written file = non-zero coefficients, exactly once, rounded
 half-even to hundredths; load_matrix on them gives back the rounded problem, hence equal energies;
 exact on multiples of 1/100; J/h split; text level: printing/parsing of the lines).
+Generated model: harness/translate_export.py prints the body of QUBOContainer.export of the tree under test as
+coq/gen/ExportGen.v and load_tools.load_matrix as coq/gen/LoadGen.v on every run; coq/genprops/C10_gen.v proves the
+text the generated export writes equal, byte for byte, to Export.export_bytes, the generated loader equal to
+Export.load_text (values and exception classes), and the byte-level round trip for the two generated functions
+(obligations of this property).
 Tie (i): real QUBOContainer.export / load_ising_matrix / load_qubo_matrix / get_Ising_J_h on random
 containers vs Export.v inside Coq (records, bytes of the lines, loader result, J/h split).
 Oracle (i): the property's own predicate on the written file and the reloaded problem, Fractions.
@@ -541,6 +546,12 @@ def generator_half(ctx, tmpdir, horizons):
 # ---------------- driver ----------------
 def run(ctx):
     ctx.prove(props=["C10", "C10_testset"])
+    import translate_export as T
+    ctx.gen_step("export", T.translate, "C10_gen",
+                 "harness/translate_export.py + the statement printer of harness/translate_report.py (ast -> Gallina printer for "
+                 "QUBOContainer.export: choice by as_ising, f-string lines, the two loops with generated bodies, the written text; "
+                 "and for load_tools.load_matrix in the exception monad: the line loop with its four branches, IndexError / ValueError "
+                 "of subscripts and int()/float(), the assertion, the shape; combinators in coq/theories/PyReport.v, PyExport.v)")
     rng = ctx.rng
     n_random = 170 if ctx.quick else 3000
     cases = gen_cases(rng, n_random)
